@@ -53,12 +53,21 @@ Lemma replace_nth_nodup {A B} (f : A -> B) p x l :
   NoDup (map f l) -> ~ In (f x) (map f l) -> NoDup (map f (replace_nth p x l)).
 Proof.
   revert p. induction l as [|z l IH]; intros [|p] Hnd Hx; simpl in *; auto.
-  - inversion Hnd; subst. constructor; tauto.
+  - inversion Hnd as [|? ? Hz Hnd']; subst. constructor; [|assumption].
+    intros Hin. apply Hx. right. exact Hin.
   - inversion Hnd as [|? ? Hz Hnd']; subst. constructor.
     + intros Hin. apply in_map_iff in Hin. destruct Hin as [w [Hw Hin]].
-      apply replace_nth_in in Hin. destruct Hin as [->|Hin]; [tauto|].
+      apply replace_nth_in in Hin. destruct Hin as [->|Hin]; [apply Hx; left; symmetry; exact Hw|].
       apply Hz. rewrite <- Hw. now apply in_map.
-    + apply IH; tauto.
+    + apply IH; [assumption|]. intros Hin. apply Hx. right. exact Hin.
+Qed.
+
+Lemma NoDup_app_single {A} (l : list A) x : NoDup l -> ~ In x l -> NoDup (l ++ [x]).
+Proof.
+  induction l as [|y l IH]; intros Hnd Hx; simpl; [constructor; [intros []|constructor]|].
+  inversion Hnd as [|? ? Hy Hnd']; subst. constructor.
+  - intros Hin. apply in_app_or in Hin. destruct Hin as [Hin|[<-|[]]]; [tauto|]. apply Hx. left. reflexivity.
+  - apply IH; [assumption|]. intros Hin. apply Hx. right. exact Hin.
 Qed.
 
 Lemma oldest_from_lt l : forall i best bs, best < i -> oldest_from l i best bs < i + length l.
@@ -103,14 +112,14 @@ Section RangeCacheProofs.
     unfold RangeCache.request. destruct (rc_find c b e) eqn:Hf; [repeat split; assumption|].
     apply find_none_key in Hf.
     destruct (SIZE <=? length (entries c)).
-    - destruct (oldest_pos (entries c)) as [p|]; simpl.
+    - destruct (oldest_pos (entries c)) as [p|]; unfold Inv; simpl.
       + repeat split.
         * apply replace_nth_nodup; assumption.
         * apply replace_nth_nodup; assumption.
         * intros x Hx. apply replace_nth_in in Hx. destruct Hx as [->|Hx]; simpl; [lia|].
           specialize (Hlt x Hx). lia.
-      + repeat split; try assumption. intros x Hx. specialize (Hlt x Hx). lia.
-    - simpl. repeat split.
+      + repeat split; try assumption. intros x Hx. simpl in *. specialize (Hlt x Hx). lia.
+    - unfold Inv; simpl. repeat split.
       + rewrite map_app. simpl. apply NoDup_app_single; assumption.
       + rewrite map_app. simpl. apply NoDup_app_single; assumption.
       + intros x Hx. apply in_app_or in Hx. destruct Hx as [Hx|[<-|[]]]; simpl; [|lia].
@@ -179,6 +188,17 @@ Section RangeCacheProofs.
     pose proof (run_reqs_inv reqs _ (request_inv c b e Hinv)) as Hinv2. fold c2 in Hinv2.
     pose proof (range_cache_hit c2 x Hinv2 Hin) as Hhit. unfold key in Hk. inversion Hk; subst.
     rewrite <- Hid. exact Hhit.
+  Qed.
+
+  (* the same, for every cache state the Vm can be in *)
+  Corollary range_cache_hit_identity_run : forall reqs0 b e, 1 <= SIZE ->
+    let c := snd (run_reqs reqs0 rc_init) in
+    exists x, In x (entries (snd (request c b e))) /\ e_id x = fst (request c b e) /\
+      forall reqs, let c2 := snd (run_reqs reqs (snd (request c b e))) in
+        In x (entries c2) -> request c2 b e = (fst (request c b e), c2).
+  Proof.
+    intros reqs0 b e Hs c. apply range_cache_hit_identity; [exact Hs|].
+    apply run_reqs_inv. apply inv_init.
   Qed.
 
   (* different cached entries are different boxes *)
